@@ -74,6 +74,8 @@ impl HashChecker {
     let mut hasher = Sha256::new();
     for entry in fs::read_dir(path)?.into_iter() {
       hasher.update(entry?.file_name().as_encoded_bytes());
+      // Terminate each name: file names cannot contain NUL, so listings such as {a, bc} and {ab, c} hash differently.
+      hasher.update([0u8]);
     }
     Ok(hasher.finalize().into())
   }
